@@ -118,6 +118,7 @@ func (H) Gen(prop string, rng *rand.Rand, tier string) *core.Plan {
 		}
 	}
 	p.Ops = append(p.Ops, core.Op{K: "flush"}, core.Op{K: "query", S: fmt.Sprint(rng.Intn(1 << 30))}, core.Op{K: "query", S: fmt.Sprint(rng.Intn(1 << 30))})
+	p.Cfg["maporder"] = rng.Intn(2) // tape-chosen iteration order of Go maps in the code under test
 	return p
 }
 
